@@ -1,14 +1,28 @@
 /-
-Text lemmas for UNITEXT (C04 / C05): what `Bytes` / `GoValue` do on strings whose code points are all
-≤ U+00FF (the region where the byte-wise layout of the current code happens to round-trip).
+Text lemmas for UNITEXT (C04 / C05): Go's UTF-8 decoder (`utf8Dec`) inverts its UTF-8 encoder (`utf8Enc`),
+`utf16.Decode` (`utf16Dec`) inverts `utf16.Encode` (`utf16Enc`) — for every Unicode scalar value —, and the
+UTF-16LE byte layout written by `Bytes` is read back by `GoValue`.
 -/
 import Dblib.Lemmas.ValueArms
 
 namespace Dblib.Lemmas.ValueText
 open Dblib Dblib.Value Dblib.Gen Dblib.Lemmas.ValueBytes Dblib.Lemmas.ValueArms
 
+/-- a Unicode scalar value: a code point that is not a surrogate -/
+def IsScalar (c : Nat) : Prop := c < 0xD800 ∨ (0xE000 ≤ c ∧ c ≤ 0x10FFFF)
+
+instance (c : Nat) : Decidable (IsScalar c) := by unfold IsScalar; exact inferInstance
+
 theorem u8_of_lt (c : Nat) (h : c < 256) : (UInt8.ofNat c).toNat = c := by
   simp only [UInt8.toNat_ofNat', Nat.reducePow]; omega
+
+theorem scalar_flags (c : Nat) (h : IsScalar c) : isSurrogate c = false ∧ ¬ c > 0x10FFFF := by
+  unfold IsScalar at h
+  constructor
+  · simp [isSurrogate]; omega
+  · omega
+
+/-! ### UTF-8 -/
 
 theorem utf8DecAux_cons (b0 : UInt8) (rest : Bytes) :
     utf8DecAux 0 (b0 :: rest) = (decodeRune b0.toNat rest).1 :: utf8DecAux (decodeRune b0.toNat rest).2 rest := rfl
@@ -24,117 +38,205 @@ theorem decodeRune_two (b0 : Nat) (b1 : UInt8) (rest : Bytes) (h0 : 0xC2 ≤ b0 
   rw [if_neg (by omega), if_pos (by simp; omega)]
   simp only [hc, if_true]
 
-/-- decoding the UTF-8 encoding of a code point ≤ U+00FF -/
-theorem utf8Dec_enc_latin1 (c : Nat) (h : c < 256) (rest : Bytes) :
+theorem decodeRune_three (b0 : Nat) (b1 b2 : UInt8) (rest : Bytes) (h0 : 0xE0 ≤ b0 ∧ b0 ≤ 0xEF)
+    (h1 : (if b0 = 0xE0 then 0xA0 else 0x80) ≤ b1.toNat ∧ b1.toNat ≤ (if b0 = 0xED then 0x9F else 0xBF))
+    (h2 : 0x80 ≤ b2.toNat ∧ b2.toNat ≤ 0xBF) :
+    decodeRune b0 (b1 :: b2 :: rest)
+      = ((b0 - 0xE0) * 4096 + (b1.toNat - 0x80) * 64 + (b2.toNat - 0x80), 2) := by
+  unfold decodeRune
+  have hc : isCont b2.toNat = true := by simp [isCont]; omega
+  rw [if_neg (by omega), if_neg (by simp; omega), if_pos (by simp; omega)]
+  simp only [hc, Bool.and_true]
+  rw [if_pos (by simp; exact h1)]
+
+theorem decodeRune_four (b0 : Nat) (b1 b2 b3 : UInt8) (rest : Bytes) (h0 : 0xF0 ≤ b0 ∧ b0 ≤ 0xF4)
+    (h1 : (if b0 = 0xF0 then 0x90 else 0x80) ≤ b1.toNat ∧ b1.toNat ≤ (if b0 = 0xF4 then 0x8F else 0xBF))
+    (h2 : 0x80 ≤ b2.toNat ∧ b2.toNat ≤ 0xBF) (h3 : 0x80 ≤ b3.toNat ∧ b3.toNat ≤ 0xBF) :
+    decodeRune b0 (b1 :: b2 :: b3 :: rest)
+      = ((b0 - 0xF0) * 262144 + (b1.toNat - 0x80) * 4096 + (b2.toNat - 0x80) * 64 + (b3.toNat - 0x80), 3) := by
+  unfold decodeRune
+  have hc2 : isCont b2.toNat = true := by simp [isCont]; omega
+  have hc3 : isCont b3.toNat = true := by simp [isCont]; omega
+  rw [if_neg (by omega), if_neg (by simp; omega), if_neg (by simp; omega), if_pos (by simp; omega)]
+  simp only [hc2, hc3, Bool.and_true]
+  rw [if_pos (by simp; exact h1)]
+
+/-- **Go's UTF-8 decoder inverts the encoder on every scalar value** -/
+theorem utf8Dec_enc (c : Nat) (h : IsScalar c) (rest : Bytes) :
     utf8DecAux 0 (utf8Enc c ++ rest) = c :: utf8DecAux 0 rest := by
-  have hs : isSurrogate c = false := by simp [isSurrogate]; omega
-  have hgt : ¬ c > 0x10FFFF := by omega
+  obtain ⟨hs, hgt⟩ := scalar_flags c h
+  unfold IsScalar at h
   by_cases h7 : c < 0x80
   · have e : utf8Enc c = [UInt8.ofNat c] := by simp [utf8Enc, hs, hgt, h7]
-    rw [e, List.singleton_append, utf8DecAux_cons, u8_of_lt c h, decodeRune_ascii c rest h7]
-  · have e : utf8Enc c = [UInt8.ofNat (0xC0 + c / 64), UInt8.ofNat (0x80 + c % 64)] := by
-      have : c < 0x800 := by omega
-      simp [utf8Enc, hs, hgt, h7, this]
-    have e0 : (UInt8.ofNat (0xC0 + c / 64)).toNat = 0xC0 + c / 64 := u8_of_lt _ (by omega)
-    have e1 : (UInt8.ofNat (0x80 + c % 64)).toNat = 0x80 + c % 64 := u8_of_lt _ (by omega)
+    rw [e, List.singleton_append, utf8DecAux_cons, u8_of_lt c (by omega), decodeRune_ascii c rest h7]
+  · by_cases h11 : c < 0x800
+    · have e : utf8Enc c = [UInt8.ofNat (0xC0 + c / 64), UInt8.ofNat (0x80 + c % 64)] := by
+        simp [utf8Enc, hs, hgt, h7, h11]
+      have e0 : (UInt8.ofNat (0xC0 + c / 64)).toNat = 0xC0 + c / 64 := u8_of_lt _ (by omega)
+      have e1 : (UInt8.ofNat (0x80 + c % 64)).toNat = 0x80 + c % 64 := u8_of_lt _ (by omega)
+      rw [e]
+      show utf8DecAux 0 (UInt8.ofNat (0xC0 + c / 64) :: UInt8.ofNat (0x80 + c % 64) :: rest) = _
+      rw [utf8DecAux_cons, e0, decodeRune_two _ _ _ (by omega) (by rw [e1]; omega), e1]
+      show ((0xC0 + c / 64 - 0xC0) * 64 + (0x80 + c % 64 - 0x80)) :: utf8DecAux 0 rest = _
+      have : (0xC0 + c / 64 - 0xC0) * 64 + (0x80 + c % 64 - 0x80) = c := by omega
+      rw [this]
+    · by_cases h16 : c < 0x10000
+      · have e : utf8Enc c = [UInt8.ofNat (0xE0 + c / 4096), UInt8.ofNat (0x80 + c / 64 % 64),
+            UInt8.ofNat (0x80 + c % 64)] := by
+          simp [utf8Enc, hs, hgt, h7, h11, h16]
+        have e0 : (UInt8.ofNat (0xE0 + c / 4096)).toNat = 0xE0 + c / 4096 := u8_of_lt _ (by omega)
+        have e1 : (UInt8.ofNat (0x80 + c / 64 % 64)).toNat = 0x80 + c / 64 % 64 := u8_of_lt _ (by omega)
+        have e2 : (UInt8.ofNat (0x80 + c % 64)).toNat = 0x80 + c % 64 := u8_of_lt _ (by omega)
+        rw [e]
+        show utf8DecAux 0 (UInt8.ofNat (0xE0 + c / 4096) :: UInt8.ofNat (0x80 + c / 64 % 64) ::
+          UInt8.ofNat (0x80 + c % 64) :: rest) = _
+        rw [utf8DecAux_cons, e0, decodeRune_three _ _ _ _ (by omega)
+          (by rw [e1]; constructor <;> split <;> omega) (by rw [e2]; omega), e1, e2]
+        show ((0xE0 + c / 4096 - 0xE0) * 4096 + (0x80 + c / 64 % 64 - 0x80) * 64 + (0x80 + c % 64 - 0x80)) ::
+          utf8DecAux 0 rest = _
+        have : (0xE0 + c / 4096 - 0xE0) * 4096 + (0x80 + c / 64 % 64 - 0x80) * 64 + (0x80 + c % 64 - 0x80) = c := by
+          omega
+        rw [this]
+      · have e : utf8Enc c = [UInt8.ofNat (0xF0 + c / 262144), UInt8.ofNat (0x80 + c / 4096 % 64),
+            UInt8.ofNat (0x80 + c / 64 % 64), UInt8.ofNat (0x80 + c % 64)] := by
+          simp [utf8Enc, hs, hgt, h7, h11, h16]
+        have e0 : (UInt8.ofNat (0xF0 + c / 262144)).toNat = 0xF0 + c / 262144 := u8_of_lt _ (by omega)
+        have e1 : (UInt8.ofNat (0x80 + c / 4096 % 64)).toNat = 0x80 + c / 4096 % 64 := u8_of_lt _ (by omega)
+        have e2 : (UInt8.ofNat (0x80 + c / 64 % 64)).toNat = 0x80 + c / 64 % 64 := u8_of_lt _ (by omega)
+        have e3 : (UInt8.ofNat (0x80 + c % 64)).toNat = 0x80 + c % 64 := u8_of_lt _ (by omega)
+        rw [e]
+        show utf8DecAux 0 (UInt8.ofNat (0xF0 + c / 262144) :: UInt8.ofNat (0x80 + c / 4096 % 64) ::
+          UInt8.ofNat (0x80 + c / 64 % 64) :: UInt8.ofNat (0x80 + c % 64) :: rest) = _
+        rw [utf8DecAux_cons, e0, decodeRune_four _ _ _ _ _ (by omega)
+          (by rw [e1]; constructor <;> split <;> omega) (by rw [e2]; omega) (by rw [e3]; omega), e1, e2, e3]
+        show ((0xF0 + c / 262144 - 0xF0) * 262144 + (0x80 + c / 4096 % 64 - 0x80) * 4096 +
+          (0x80 + c / 64 % 64 - 0x80) * 64 + (0x80 + c % 64 - 0x80)) :: utf8DecAux 0 rest = _
+        have : (0xF0 + c / 262144 - 0xF0) * 262144 + (0x80 + c / 4096 % 64 - 0x80) * 4096 +
+          (0x80 + c / 64 % 64 - 0x80) * 64 + (0x80 + c % 64 - 0x80) = c := by omega
+        rw [this]
+
+theorem utf8Dec_encAll (cps : List Nat) (h : ∀ c ∈ cps, IsScalar c) : utf8Dec (utf8EncAll cps) = cps := by
+  induction cps with
+  | nil => rfl
+  | cons c cs ih =>
+    have hc := h c (by simp)
+    have hcs : ∀ c ∈ cs, IsScalar c := fun x hx => h x (by simp [hx])
+    simp only [utf8Dec, utf8EncAll, List.map_cons, List.flatten_cons] at ih ⊢
+    rw [utf8Dec_enc c hc, ih hcs]
+
+/-! ### UTF-16 -/
+
+/-- **`utf16.Decode` inverts `utf16.Encode` on every scalar value** -/
+theorem utf16Dec_enc (c : Nat) (h : IsScalar c) (rest : List Nat) :
+    utf16Dec (utf16Enc c ++ rest) = c :: utf16Dec rest := by
+  obtain ⟨hs, hgt⟩ := scalar_flags c h
+  unfold IsScalar at h
+  by_cases h16 : c < 0x10000
+  · have e : utf16Enc c = [c] := by simp [utf16Enc, hs, hgt, h16]
     rw [e]
-    show utf8DecAux 0 (UInt8.ofNat (0xC0 + c / 64) :: UInt8.ofNat (0x80 + c % 64) :: rest) = _
-    rw [utf8DecAux_cons, e0, decodeRune_two _ _ _ (by omega) (by rw [e1]; omega), e1]
-    show ((0xC0 + c / 64 - 0xC0) * 64 + (0x80 + c % 64 - 0x80)) ::
-      utf8DecAux 1 (UInt8.ofNat (0x80 + c % 64) :: rest) = _
-    rw [show utf8DecAux 1 (UInt8.ofNat (0x80 + c % 64) :: rest) = utf8DecAux 0 rest from rfl]
-    have : (0xC0 + c / 64 - 0xC0) * 64 + (0x80 + c % 64 - 0x80) = c := by omega
+    cases rest with
+    | nil => simp [utf16Dec, hs]
+    | cons u2 r =>
+      show utf16Dec (c :: u2 :: r) = _
+      rw [utf16Dec, if_neg (by omega)]
+      simp [hs]
+  · have e : utf16Enc c = [0xD800 + (c - 0x10000) / 1024, 0xDC00 + (c - 0x10000) % 1024] := by
+      simp [utf16Enc, hs, hgt, h16]
+    rw [e]
+    show utf16Dec ((0xD800 + (c - 0x10000) / 1024) :: (0xDC00 + (c - 0x10000) % 1024) :: rest) = _
+    rw [utf16Dec, if_pos (by omega)]
+    have : 0x10000 + (0xD800 + (c - 0x10000) / 1024 - 0xD800) * 1024 + (0xDC00 + (c - 0x10000) % 1024 - 0xDC00) = c := by
+      omega
     rw [this]
 
-theorem utf8Dec_encAll_latin1 (cps : List Nat) (h : ∀ c ∈ cps, c < 256) : utf8Dec (utf8EncAll cps) = cps := by
+theorem utf16Dec_encAll (cps : List Nat) (h : ∀ c ∈ cps, IsScalar c) : utf16Dec (utf16EncAll cps) = cps := by
   induction cps with
   | nil => rfl
   | cons c cs ih =>
     have hc := h c (by simp)
-    have hcs : ∀ c ∈ cs, c < 256 := fun x hx => h x (by simp [hx])
-    simp only [utf8Dec, utf8EncAll, List.map_cons, List.flatten_cons] at ih ⊢
-    rw [utf8Dec_enc_latin1 c hc, ih hcs]
+    have hcs : ∀ c ∈ cs, IsScalar c := fun x hx => h x (by simp [hx])
+    simp only [utf16EncAll, List.map_cons, List.flatten_cons] at ih ⊢
+    rw [utf16Dec_enc c hc, ih hcs]
 
-theorem utf16EncAll_latin1 (cps : List Nat) (h : ∀ c ∈ cps, c < 256) : utf16EncAll cps = cps := by
-  induction cps with
+theorem utf16Enc_lt (c : Nat) : ∀ u ∈ utf16Enc c, u < 65536 := by
+  intro u hu
+  unfold utf16Enc at hu
+  split at hu
+  · simp at hu; omega
+  · split at hu
+    · simp at hu; omega
+    · rename_i h1 h2
+      simp only [Bool.or_eq_true, decide_eq_true_eq, not_or, Nat.not_lt] at h1
+      simp at hu
+      omega
+
+theorem utf16EncAll_lt (cps : List Nat) : ∀ u ∈ utf16EncAll cps, u < 65536 := by
+  intro u hu
+  simp only [utf16EncAll, List.mem_flatten, List.mem_map] at hu
+  obtain ⟨l, ⟨c, _, rfl⟩, hul⟩ := hu
+  exact utf16Enc_lt c u hul
+
+/-! ### the UTF-16LE byte layout -/
+
+/-- UTF-16LE bytes of a list of code units -/
+def unitsLE (us : List Nat) : Bytes := (us.map (leEncode 2)).flatten
+
+theorem unitsLE_cons (u : Nat) (us : List Nat) : unitsLE (u :: us) = leEncode 2 u ++ unitsLE us := rfl
+
+theorem unitsLE_length (us : List Nat) : (unitsLE us).length = 2 * us.length := by
+  induction us with
   | nil => rfl
-  | cons c cs ih =>
-    have hc := h c (by simp)
-    have hcs : ∀ c ∈ cs, c < 256 := fun x hx => h x (by simp [hx])
-    have e : utf16Enc c = [c] := by
-      have hs : isSurrogate c = false := by simp [isSurrogate]; omega
-      have : c < 0x10000 := by omega
-      have hgt : ¬ c > 0x10FFFF := by omega
-      simp [utf16Enc, hs, hgt, this]
-    simp only [utf16EncAll, List.map_cons, List.flatten_cons, e] at ih ⊢
-    rw [ih hcs]; rfl
+  | cons u us ih => rw [unitsLE_cons, List.length_append, leEncode_length, ih, List.length_cons]; omega
 
 theorem zeros_succ (n : Nat) : zeros (n + 1) = 0 :: zeros n := by simp [zeros, List.replicate_succ]
 
-/-- the overlapping 16-bit writes lay code units ≤ 0xFF out one per byte -/
-theorem unitextWrite_latin1 (us : List Nat) (h : ∀ u ∈ us, u < 256) :
-    ∀ (pre : Bytes) (m : Nat), us.length + 1 ≤ m →
-      unitextWrite pre.length us (pre ++ zeros m) = pre ++ us.map UInt8.ofNat ++ zeros (m - us.length) := by
+/-- the loop `PutUint16(bs[2*i:], u[i])` writes the UTF-16LE layout -/
+theorem unitextWrite_eq (us : List Nat) :
+    ∀ (i : Nat) (pre : Bytes) (m : Nat), pre.length = 2 * i → 2 * us.length ≤ m →
+      unitextWrite i us (pre ++ zeros m) = pre ++ unitsLE us ++ zeros (m - 2 * us.length) := by
   induction us with
-  | nil => intro pre m _; simp [unitextWrite]
+  | nil => intro i pre m _ _; simp [unitextWrite, unitsLE]
   | cons u us ih =>
-    intro pre m hm
-    have hu := h u (by simp)
-    have hus : ∀ x ∈ us, x < 256 := fun x hx => h x (by simp [hx])
+    intro i pre m hpre hm
     obtain ⟨m', rfl⟩ : ∃ m', m = m' + 2 := ⟨m - 2, by simp at hm; omega⟩
-    have e1 : leEncode 2 u = [UInt8.ofNat u, 0] := by
-      have : u / 256 = 0 := by omega
-      have h2 : u % 256 = u := by omega
-      simp [leEncode, this, h2]
-    have e2 : (pre ++ zeros (m' + 2)).take pre.length = pre := by simp
-    have e3 : (pre ++ zeros (m' + 2)).drop (pre.length + 2) = zeros m' := by
-      have : pre.length + 2 - pre.length = 2 := by omega
+    have e2 : (pre ++ zeros (m' + 2)).take (2 * i) = pre := by
+      rw [← hpre]; simp
+    have e3 : (pre ++ zeros (m' + 2)).drop (2 * i + 2) = zeros m' := by
+      have : 2 * i + 2 - pre.length = 2 := by omega
       rw [List.drop_append, this, List.drop_of_length_le (by omega), zeros_succ, zeros_succ]; rfl
-    simp only [unitextWrite, e1, e2, e3]
-    have key := ih hus (pre ++ [UInt8.ofNat u]) (m' + 1) (by simp at hm ⊢; omega)
-    have e4 : pre ++ [UInt8.ofNat u, 0] ++ zeros m' = (pre ++ [UInt8.ofNat u]) ++ zeros (m' + 1) := by
-      simp [zeros_succ]
-    have e5 : (pre ++ [UInt8.ofNat u]).length = pre.length + 1 := by simp
-    rw [e4, ← e5, key]
-    simp only [List.map_cons, List.length_cons, List.append_assoc, List.singleton_append]
-    congr 3
+    simp only [unitextWrite, e2, e3]
+    have hl : (pre ++ leEncode 2 u).length = 2 * (i + 1) := by
+      rw [List.length_append, leEncode_length]; omega
+    have key := ih (i + 1) (pre ++ leEncode 2 u) m' hl (by simp at hm; omega)
+    have e4 : m' + 2 - 2 * (u :: us).length = m' - 2 * us.length := by
+      simp only [List.length_cons]; omega
+    rw [key, unitsLE_cons, e4]
+    simp only [List.append_assoc]
+
+theorem unitextWrite_zeros (us : List Nat) : unitextWrite 0 us (zeros (us.length * 2)) = unitsLE us := by
+  have := unitextWrite_eq us 0 [] (us.length * 2) rfl (by omega)
+  simp only [List.nil_append] at this
+  rw [this, show us.length * 2 - 2 * us.length = 0 by omega]
+  simp [zeros]
+
+theorem unitsOfLE_unitsLE (us : List Nat) (h : ∀ u ∈ us, u < 65536) : unitsOfLE (unitsLE us) = us := by
+  induction us with
+  | nil => rfl
+  | cons u us ih =>
+    have hu := h u (by simp)
+    have hus : ∀ x ∈ us, x < 65536 := fun x hx => h x (by simp [hx])
+    have e : leEncode 2 u = [UInt8.ofNat (u % 256), UInt8.ofNat (u / 256 % 256)] := by
+      simp [leEncode]
+    rw [unitsLE_cons, e]
+    show unitsOfLE (UInt8.ofNat (u % 256) :: UInt8.ofNat (u / 256 % 256) :: unitsLE us) = _
+    rw [unitsOfLE, ih hus, u8_mod, u8_mod]
+    congr 1
     omega
 
-theorem unitextRunes_eq (bs : Bytes) : unitextRunes bs = some (bs.map (·.toNat)) := by
-  induction bs with
-  | nil => rfl
-  | cons b bs ih =>
-    have hs : isSurrogate b.toNat = false := by
-      have := u8_lt b; simp [isSurrogate]; omega
-    have e : unitextRunes (b :: bs) = if isSurrogate b.toNat then
-        (match bs with
-          | [] => none
-          | _ :: r => (unitextRunes r).map (0xFFFD :: ·))
-        else (unitextRunes bs).map (b.toNat :: ·) := by cases bs <;> rfl
-    rw [e, hs, ih]; rfl
+/-! ### trailing NULs -/
 
 theorem utf8EncAll_append (a b : List Nat) : utf8EncAll (a ++ b) = utf8EncAll a ++ utf8EncAll b := by
   simp [utf8EncAll]
-
-theorem utf8EncAll_zeros (n : Nat) : utf8EncAll (List.replicate n 0) = zeros n := by
-  induction n with
-  | zero => rfl
-  | succ n ih =>
-    have e : utf8Enc 0 = [0] := by decide
-    simp only [utf8EncAll, List.replicate_succ, List.map_cons, List.flatten_cons, e] at ih ⊢
-    rw [ih]; simp [zeros, List.replicate_succ]
-
-theorem trimRightNul_zeros (s : Bytes) (n : Nat) : trimRightNul (s ++ zeros n) = trimRightNul s := by
-  induction n with
-  | zero => simp [zeros]
-  | succ n ih =>
-    have e : s ++ zeros (n + 1) = (s ++ zeros n) ++ [0] := by
-      simp [zeros, List.replicate_succ']
-    rw [e, trimRightNul, List.reverse_append]
-    simp only [List.reverse_cons, List.reverse_nil, List.nil_append, List.singleton_append, List.dropWhile_cons]
-    have : ((0 : UInt8) == 0) = true := by decide
-    simp only [this, if_true]
-    exact ih
 
 theorem trimRightNul_id (s : Bytes) (h : ∀ b, s.getLast? = some b → b ≠ 0) : trimRightNul s = s := by
   rcases List.eq_nil_or_concat s with rfl | ⟨s', b, rfl⟩
@@ -142,5 +244,52 @@ theorem trimRightNul_id (s : Bytes) (h : ∀ b, s.getLast? = some b → b ≠ 0)
   · have hb : b ≠ 0 := h b (by simp)
     have : (b == 0) = false := by simp [hb]
     simp [trimRightNul, List.dropWhile_cons, this]
+
+theorem ofNat_ne_zero (n : Nat) (h0 : n ≠ 0) (h : n < 256) : UInt8.ofNat n ≠ 0 := by
+  intro hc
+  have := congrArg UInt8.toNat hc
+  rw [u8_of_lt n h] at this
+  exact h0 this
+
+/-- the four shapes of the UTF-8 encoding of a scalar value -/
+theorem utf8Enc_forms (c : Nat) (h : IsScalar c) :
+    (c < 0x80 ∧ utf8Enc c = [UInt8.ofNat c]) ∨
+    (0x80 ≤ c ∧ utf8Enc c = [UInt8.ofNat (0xC0 + c / 64), UInt8.ofNat (0x80 + c % 64)]) ∨
+    (0x80 ≤ c ∧ utf8Enc c = [UInt8.ofNat (0xE0 + c / 4096), UInt8.ofNat (0x80 + c / 64 % 64),
+      UInt8.ofNat (0x80 + c % 64)]) ∨
+    (0x80 ≤ c ∧ utf8Enc c = [UInt8.ofNat (0xF0 + c / 262144), UInt8.ofNat (0x80 + c / 4096 % 64),
+      UInt8.ofNat (0x80 + c / 64 % 64), UInt8.ofNat (0x80 + c % 64)]) := by
+  obtain ⟨hs, hgt⟩ := scalar_flags c h
+  by_cases h7 : c < 0x80
+  · exact Or.inl ⟨h7, by simp [utf8Enc, hs, hgt, h7]⟩
+  · by_cases h11 : c < 0x800
+    · exact Or.inr (Or.inl ⟨by omega, by simp [utf8Enc, hs, hgt, h7, h11]⟩)
+    · by_cases h16 : c < 0x10000
+      · exact Or.inr (Or.inr (Or.inl ⟨by omega, by simp [utf8Enc, hs, hgt, h7, h11, h16]⟩))
+      · exact Or.inr (Or.inr (Or.inr ⟨by omega, by simp [utf8Enc, hs, hgt, h7, h11, h16]⟩))
+
+/-- the last byte of the UTF-8 encoding of a scalar value is NUL only for U+0000 -/
+theorem utf8Enc_last (c : Nat) (h : IsScalar c) (hc : c ≠ 0) :
+    ∃ (init : Bytes) (last : UInt8), utf8Enc c = init ++ [last] ∧ last ≠ 0 := by
+  rcases utf8Enc_forms c h with ⟨h1, e⟩ | ⟨h1, e⟩ | ⟨h1, e⟩ | ⟨h1, e⟩
+  · exact ⟨[], _, e, ofNat_ne_zero _ hc (by omega)⟩
+  · exact ⟨[_], _, e, ofNat_ne_zero _ (by omega) (by omega)⟩
+  · exact ⟨[_, _], _, e, ofNat_ne_zero _ (by omega) (by omega)⟩
+  · exact ⟨[_, _, _], _, e, ofNat_ne_zero _ (by omega) (by omega)⟩
+
+/-- a string of scalar values that does not end in U+0000 has no trailing NUL byte -/
+theorem utf8EncAll_last (cps : List Nat) (hs : ∀ c ∈ cps, IsScalar c) (h : cps.getLast? ≠ some 0) :
+    ∀ b, (utf8EncAll cps).getLast? = some b → b ≠ 0 := by
+  rcases List.eq_nil_or_concat cps with rfl | ⟨cs, c, rfl⟩
+  · intro b hb; simp [utf8EncAll] at hb
+  · rw [List.concat_eq_append] at h hs ⊢
+    have hc : c ≠ 0 := by
+      intro hc; apply h; simp [hc]
+    obtain ⟨init, last, e1, hl⟩ := utf8Enc_last c (hs c (by simp)) hc
+    intro b hb
+    have e : utf8EncAll (cs ++ [c]) = (utf8EncAll cs ++ init) ++ [last] := by
+      rw [utf8EncAll_append, List.append_assoc, ← e1]; simp [utf8EncAll]
+    rw [e, List.getLast?_concat] at hb
+    rw [← Option.some.inj hb]; exact hl
 
 end Dblib.Lemmas.ValueText
